@@ -54,6 +54,8 @@ def run_real(recipe, root):
     def real(path):
         return path.replace("/sim/w/", root + "/") if isinstance(path, str) \
             else path
+    for path in recipe.get("dirs") or []:
+        os.makedirs(real(path), exist_ok=True)
     for path, text in recipe["files"].items():
         with open(real(path), "w", encoding="utf-8", newline="") as fhnd:
             fhnd.write(text)
@@ -82,6 +84,8 @@ def run_real(recipe, root):
         sys.argv, sys.stdin, sys.stdout, sys.stderr, parsers.stdin = saved
     files = {}
     for name in sorted(os.listdir(root)):
+        if os.path.isdir(os.path.join(root, name)):
+            continue
         with open(os.path.join(root, name), "rb") as fhnd:
             files["/sim/w/" + name] = fhnd.read()
     return code, out.getvalue().replace(root + "/", "/sim/w/"), files
